@@ -40,6 +40,10 @@ Enc(ns) ==
   \cup {<<Ref("E7", <<>>), <<Interface("P7", <<>>, <<CallSig(U(Lits(h[1])))>>), Interface("Q7", <<>>, <<CallSig(U(Lits(h[2])))>>),
                             Interface("E7", <<"P7", "Q7">>, <<>>)>>>> : h \in Halves(ns)}
   \cup {<<Ref("E4", <<>>), <<Interface("E4", <<>>, <<CallSig(U(Lits(h[1])))>>), Interface("E4", <<>>, <<CallSig(U(Lits(h[2])))>>)>>>> : h \in Halves(ns)}
+  \* a later declaration of the interface adds a parent
+  \cup {<<Ref("E8", <<>>), <<Interface("B8", <<>>, <<CallSig(U(Lits(h[1])))>>), Interface("E8", <<>>, <<CallSig(U(Lits(h[2])))>>), Interface("E8", <<"B8">>, <<>>)>>>> : h \in Halves(ns)}
+  \cup {<<Ref("E9", <<>>), <<Interface("B9", <<>>, [i \in 1..Len(h[1]) |-> Prop(h[1][i], "str", FALSE, TupleT(<<>>))]), Interface("E9", <<>>, <<>>),
+                            Interface("E9", <<"B9">>, [i \in 1..Len(h[2]) |-> Prop(h[2][i], "str", FALSE, TupleT(<<>>))])>>>> : h \in Halves(ns)}
 
 ShadowedE(d) ==       \* the same name, declaring the single event "zz" in the same style
   IF d.k = "interface" THEN Interface(d.name, <<>>, <<CallSig(L("zz"))>>)
